@@ -209,10 +209,14 @@ func runC11(c *Ctx) {
 		var fwd *ssa.Function
 		ir.Instrs(nsub, func(in ssa.Instruction) {
 			if g, ok := in.(*ssa.Go); ok {
+				// a function literal, or a named function / method started
+				// with `go`
 				if mc, ok := g.Call.Value.(*ssa.MakeClosure); ok {
 					if f, ok := mc.Fn.(*ssa.Function); ok {
 						fwd = f
 					}
+				} else if f := g.Call.StaticCallee(); f != nil && f.Blocks != nil {
+					fwd = f
 				}
 			}
 		})
